@@ -105,13 +105,17 @@ Inductive state_kind : Type :=
 | SModuleContainer      (* list/dict/set bound at module level *)
 | SClassContainer       (* ... in a class body *)
 | SDefaultArg           (* mutable default argument *)
-| SGlobalRebind.        (* module name assigned inside a function through `global` *)
+| SGlobalRebind         (* module name assigned inside a function through `global` *)
+| SProcessSetting.      (* a setting of the interpreter or of an imported library written by the package: attribute of an
+                           imported object (`mp.dps = ...`), os.environ item, np.seterr / warnings.filterwarnings /
+                           os.chdir / random.seed ... call *)
 
 Record state_entry : Type := mkSE {
   se_name : string; se_kind : state_kind;
   se_mutated : bool;        (* the source writes into it (item assignment, mutator call, rebinding) *)
-  se_keyed_memo : bool }.   (* every write is a guarded get-or-create / initialise-once: a memo of values that do not
-                               depend on the run (keys compared by value) *)
+  se_keyed_memo : bool }.   (* harmless: every write is a guarded get-or-create / initialise-once (a memo of values that do
+                               not depend on the run); for a setting: EVERY run writes it, to an input-independent value,
+                               in its entry point - or it is a new attribute that nothing reads *)
 
 (* a run cannot leave anything behind in an object that is never written, nor - observably - in a keyed memo *)
 Definition state_ok (e : state_entry) : bool := negb (se_mutated e) || se_keyed_memo e.
@@ -130,3 +134,9 @@ Record param_default : Type := mkPD { pd_where : string; pd_expr : string; pd_ki
 
 Definition default_ok (d : param_default) : bool :=
   match pd_kind d with DShared | DOther => false | _ => true end.
+
+(* loops and comprehensions over dict views (insertion-ordered) and over set expressions (a set of strings is walked in an
+   order that depends on the hash seed) *)
+Inductive iter_kind : Type := IDictView | ISet.
+Record iteration : Type := mkIT { it_where : string; it_expr : string; it_kind : iter_kind }.
+Definition iteration_ok (i : iteration) : bool := match it_kind i with IDictView => true | ISet => false end.
